@@ -79,7 +79,7 @@ void oracle_c02(Plan const& p, RunCtl const& ctl, std::vector<u64> const& seg_ca
     ChkptView const& v, Report& rep);
 void oracle_c07_invariants(Plan const& p, RunOut const& out, ChkptView const& v, Report& rep);
 void oracle_c07_share(Plan const& p, ChkptView const& v, Report& rep);
-void oracle_c08(Plan const& p, ChkptView const& v, Report& rep);
+void oracle_c08(Plan const& p, ChkptView const& v, Report& rep, u64 from = 0);
 void oracle_c09_invariant(Plan const& p, RunOut const& out, ChkptView const& v, Report& rep);
 void oracle_c10(Plan const& p, std::vector<u64> const& seg_calls, RunOut const& out, IWorld const& world,
     Report& rep);
